@@ -66,3 +66,61 @@ def dec_prefix_len(nr, rnd, step):
     base=3+4*(rnd-1)
     if rnd<nr: return base+step+1
     return base+1
+
+
+# ------------------------------------------------------------------------------------------------
+# convenience API used by the checks
+def encrypt(key, block):
+    return run(block, enc_ops(key))
+
+
+def decrypt(key, block):
+    return run(block, dec_ops(key))
+
+
+def nr_of(key):
+    return len(key) // 4 + 6
+
+
+def state_at(key, block, mode, rnd, step):
+    """State after scared's (at_round, after_step) stop point, by FIPS-197 operation prefix."""
+    nr = nr_of(key)
+    if mode == 'encrypt':
+        return run(block, enc_ops(key), enc_prefix_len(nr, rnd, step))
+    return run(block, dec_ops(key), dec_prefix_len(nr, rnd, step))
+
+
+FIPS197 = [
+    # (key, plaintext, ciphertext)  FIPS-197 Appendix B and C
+    ('2b7e151628aed2a6abf7158809cf4f3c', '3243f6a8885a308d313198a2e0370734', '3925841d02dc09fbdc118597196a0b32'),
+    ('000102030405060708090a0b0c0d0e0f', '00112233445566778899aabbccddeeff', '69c4e0d86a7b0430d8cdb78070b4c55a'),
+    ('000102030405060708090a0b0c0d0e0f1011121314151617', '00112233445566778899aabbccddeeff', 'dda97ca4864cdfe06eaf70a0ec0d7191'),
+    ('000102030405060708090a0b0c0d0e0f101112131415161718191a1b1c1d1e1f', '00112233445566778899aabbccddeeff', '8ea2b7ca516745bfeafc49904b496089'),
+]
+
+
+def selftest():
+    import json
+    import os
+    assert SB[0] == 0x63 and SB[0x53] == 0xed and ISB[0x63] == 0
+    for k, p, c in FIPS197:
+        k, p, c = bytes.fromhex(k), bytes.fromhex(p), bytes.fromhex(c)
+        assert bytes(encrypt(k, p)) == c, 'FIPS-197 encrypt vector'
+        assert bytes(decrypt(k, c)) == p, 'FIPS-197 decrypt vector'
+    # FIPS-197 Appendix A.1: last round key of the 128-bit example
+    assert bytes(round_keys(bytes.fromhex('2b7e151628aed2a6abf7158809cf4f3c'))[10]).hex() == 'd014f9a8c9ee2589e13f0cc8b6630ca6'
+    # FIPS-197 Appendix C.1 intermediate: round 1 start / after sub bytes
+    k = bytes.fromhex('000102030405060708090a0b0c0d0e0f')
+    p = bytes.fromhex('00112233445566778899aabbccddeeff')
+    assert bytes(state_at(k, p, 'encrypt', 0, 3)).hex() == '00102030405060708090a0b0c0d0e0f0'
+    assert bytes(state_at(k, p, 'encrypt', 1, 0)).hex() == '63cab7040953d051cd60e0e7ba70e18c'
+    assert bytes(state_at(k, p, 'encrypt', 1, 1)).hex() == '6353e08c0960e104cd70b751bacad0e7'
+    assert bytes(state_at(k, p, 'encrypt', 1, 2)).hex() == '5f72641557f5bc92f7be3b291db9f91a'
+    path = os.path.join(os.path.dirname(__file__), 'kat', 'aes.json')
+    n = 0
+    with open(path) as f:
+        for k, p, c in json.load(f):
+            k, p, c = bytes.fromhex(k), bytes.fromhex(p), bytes.fromhex(c)
+            assert bytes(encrypt(k, p)) == c and bytes(decrypt(k, c)) == p, 'KAT mismatch'
+            n += 1
+    return 'aes-ref-ok(%d kat)' % n
